@@ -228,6 +228,18 @@ pub fn sweep(
     on_answer: &mut dyn FnMut(&mut Ctx, &Q, u32, u32, &Answer) -> Result<(), Failure>,
 ) -> Result<(u64, u64), Failure> {
     let host = build_host(ws);
+    sweep_host(ctx, ws, &host, max_offsets, c, on_answer)
+}
+
+/// The same sweep over a host that already holds `ws` (possibly reached through an edit history).
+pub fn sweep_host(
+    ctx: &mut Ctx,
+    ws: &Workspace,
+    host: &ide::AnalysisHost,
+    max_offsets: usize,
+    c: &mut Choices,
+    on_answer: &mut dyn FnMut(&mut Ctx, &Q, u32, u32, &Answer) -> Result<(), Failure>,
+) -> Result<(u64, u64), Failure> {
     let an = host.snapshot();
     let wsj = ws_json(ws);
     let mut calls = 0u64;
